@@ -2,6 +2,7 @@
 #include "../world.h"
 #include "gen_util.h"
 #include <errno.h>
+#include <string.h>
 
 namespace sim {
 
@@ -104,13 +105,86 @@ static std::string c17_local(Rng &r, uint64_t idx, bool enumerated) {
   size_t n = (size_t)r.range(1, 12); for (size_t q = 0; q < n; q++) s += alpha[r.below(20)]; return s;
 }
 
+// reference header quoting of a local part (RFC 822: dot-atom or quoted-string)
+static std::string hdr_quote(const std::string &box) {
+  bool need = box.empty(); for (unsigned char c : box) if (c >= 128 || c <= 32 || c == 127 || strchr("()<>@,;:\\\"[]", c)) need = true;
+  if (!need && (box[0] == '.' || box.back() == '.' || box.find("..") != std::string::npos)) need = true;
+  if (!need) return box;
+  std::string o = "\""; for (char c : box) { if (c == '"' || c == '\\' || c == '\r') o += '\\'; o += c; } return o + "\"";
+}
+
+static bool gen_c17_inject(Rng &r, Plan &p) {
+  p.world = "I"; p.knobs.set("oracles", oracle_list({"c17"})).set("split_p", r.pick(std::vector<double>{0.0, 0.5})).set("stick", 1.0);
+  std::string dhost = "sim.example", ddom = "sim.example", pdom = "sim.example"; Json env = Json::obj();
+  if (r.chance(0.4)) { dhost = r.pick(std::vector<std::string>{"dh.example", "shorthost"}); env.set("QMAILDEFAULTHOST", dhost); }
+  if (r.chance(0.4)) { ddom = "dd.example"; env.set("QMAILDEFAULTDOMAIN", ddom); }
+  if (r.chance(0.4)) { pdom = "plus.example"; env.set("QMAILPLUSDOMAIN", pdom); }
+  if (r.chance(0.3)) env.set("QMAILINJECT", r.pick(std::vector<std::string>{"c", "s", "f", "i", "cs", "fi"}));
+  p.knobs.set("env", env);
+  auto rewrite = [&](std::string box, std::string host, bool has_host) { if (!has_host) host = dhost; if (!host.empty() && host.back() == '+') host = host.substr(0, host.size() - 1) + "." + pdom; else if (host.find('.') == std::string::npos && (host.empty() || host[0] != '[')) host += "." + ddom; return box + "@" + host; };
+  static const std::vector<std::string> boxes = {"joe", "Joe.Shmoe", "a b", "a\"b", "x,y", "semi;colon", "back\\slash", "(paren)", "<angle>", "at@sign", "u-v_w+z", "we:ird", ".dot", "x..y", "\xe9t\xe9", "a\tb"};
+  static const std::vector<std::string> hosts = {"x.example", "Mixed.Example", "shost", "lab.cs+", "[1.2.3.4]", "a.b.c.d.example"};
+  auto cmt = [&]() -> std::string { return r.chance(0.3) ? " (c" + std::string(r.chance(0.3) ? " (nested \\) )" : "") + ") " : (r.chance(0.3) ? "\n\t" : " "); };
+  std::vector<std::string> expect; std::string hdr;
+  auto one = [&](std::vector<std::string> &into) -> std::string {
+    std::string box = r.pick(boxes), host = r.pick(hosts); bool has_host = !r.chance(0.1);
+    std::string addr = hdr_quote(box) + (has_host ? "@" + host : std::string());
+    into.push_back(rewrite(box, host, has_host));
+    int f = (int)r.below(7);
+    switch (f) {
+      case 0: return addr;
+      case 1: return r.pick(std::vector<std::string>{"Some Name", "A. Person", "\"Quoted, Name\"", "Na=me"}) + cmt() + "<" + addr + ">";
+      case 2: return addr + " (Somebody" + (r.chance(0.3) ? " (inner)" : "") + ")";
+      case 3: return "(before)" + cmt() + hdr_quote(box) + (has_host ? cmt() + "@" + cmt() + host : std::string()) + cmt();
+      case 4: return has_host ? "<@r1.example,@r2.example:" + addr + ">" : "<" + addr + ">";
+      case 5: return "<" + addr + ">";
+      default: return r.pick(std::vector<std::string>{"Name", "\"Q\""}) + "\n <" + addr + ">";
+    }
+  };
+  int nf = (int)r.range(1, 3); bool have_to = false, has_bcc = false; std::vector<std::string> dummy;
+  for (int fi = 0; fi < nf; fi++) {
+    std::string name = fi == 0 ? r.pick(std::vector<std::string>{"To", "to", "TO", "Cc"}) : r.pick(std::vector<std::string>{"Cc", "Bcc", "bcc", "To", "Apparently-To"});
+    if (name[0] == 'T' || name[0] == 't' || name[0] == 'C') have_to = true;
+    if (name[0] == 'B' || name[0] == 'b') has_bcc = true;
+    std::string list; int n = (int)r.range(1, 4);
+    for (int q = 0; q < n; q++) {
+      std::string item;
+      if (r.chance(0.15)) { int gm = (int)r.below(3); item = r.pick(std::vector<std::string>{"random group", "list", "\"g;x\""}) + ":"; for (int m = 0; m < gm; m++) item += (m ? "," : "") + cmt() + one(expect); item += ";"; }
+      else item = one(expect);
+      list += item; if (q + 1 < n) list += r.chance(0.9) ? "," + cmt() : ",\n\t";
+    }
+    if (r.chance(0.1)) list += ",";
+    hdr += name + ":" + (r.chance(0.8) ? " " : "") + list + "\n";
+  }
+  if (r.chance(0.5)) hdr = "From: Sender Person <sender@x.example>\n" + hdr;
+  if (r.chance(0.3)) hdr += "Subject: s\n";
+  hdr += "\nbody line\n";
+  p.knobs.set("stdin", hdr);
+  Json args = Json::arr(); int mode = (int)r.below(8); std::vector<std::string> argr = {"arg1@x.example", "arg2"};
+  std::vector<std::string> want = expect;
+  if (mode == 0) { args.push("-a"); for (auto &a : argr) args.push(a); want = {"arg1@x.example", rewrite("arg2", "", false)}; }
+  else if (mode == 1) { args.push("-h"); for (auto &a : argr) args.push(a); }
+  else if (mode == 2) { args.push("-H"); for (auto &a : argr) args.push(a); want.push_back("arg1@x.example"); want.push_back(rewrite("arg2", "", false)); }
+  else if (mode == 3) { for (auto &a : argr) args.push(a); want = {"arg1@x.example", rewrite("arg2", "", false)}; }
+  else if (mode == 4) { args.push("-fenv@sender.example"); }
+  p.knobs.set("args", args);
+  Json ex = Json::obj(); Json wr = Json::arr(); for (auto &w : want) wr.push(w); ex.set("rcpts", wr); if (mode == 4) ex.set("sender", "env@sender.example"); p.knobs.set("expect", ex);
+  if (mode >= 4 && !has_bcc && r.chance(0.7)) p.knobs.set("reinject", true);  // Bcc is deleted from the stored header, so its addresses cannot come back
+  (void)have_to; (void)dummy;
+  p.label = "qmail-inject header with " + std::to_string(expect.size()) + " mailboxes, mode " + std::to_string(mode);
+  return true;
+}
+
 static bool gen_c17(uint64_t seed, const std::string &tier, uint64_t i, Plan &p) {
   p = Plan(); p.property = "C17"; p.world = "SO"; p.seed = mix64(mix64(seed, 0xC17), i);
-  Rng r(p.seed); so_knobs(r, p);
+  Rng r(p.seed);
+  if (i % 3 == 2) return gen_c17_inject(r, p);
+  so_knobs(r, p);
   p.knobs.set("oracles", oracle_list({"c17"})).set("relay", true);
   uint64_t nen = tier == "quick" ? 420 : 8420;   // 20 + 400 (+ 8000) enumerated local parts
-  bool en = i < nen;
-  std::string lp = c17_local(r, i, en);
+  uint64_t j = i - i / 3;                        // index among the relay-leg plans (every third plan is an inject-leg plan)
+  bool en = j < nen;
+  std::string lp = c17_local(r, j, en);
   std::string s2 = c17_local(r, r.next(), false);
   bool as_sender = r.chance(0.5);
   p.knobs.set("sender", as_sender ? lp + "@x.example" : (r.chance(0.2) ? std::string() : s2 + "@x.example"));
@@ -136,8 +210,8 @@ static RegisterProperty reg_c09(PropertyDef{
     so_real(), so_stubs(), q_assume(), "hash of qmail-remote's output and the payload", 3000, 150000});
 
 static RegisterProperty reg_c17(PropertyDef{
-    "C17", "SO", "exploration", "deterministic simulation (two-party leg): addresses with hostile local parts travel as sender and recipient from the real qmail-remote across segmented simulated TCP to the real qmail-smtpd and qmail-queue; the envelope in the receiving queue must equal the sending envelope byte for byte", gen_c17,
-    "plan i = f(VERIF_SEED, i): ALL local parts up to length 2 (quick) / 3 (thorough) over a 20-symbol alphabet (letters, dot, quote, backslash, space, TAB, CR, parentheses, angle brackets, @, comma, semicolon, colon, brackets, 8-bit, dash), then random ones up to 12 bytes, as sender or recipient, optionally with a second random recipient. The qmail-inject leg (header -> envelope) is NOT covered by this check. "
+    "C17", "SO", "exploration", "deterministic simulation: (relay leg) addresses with hostile local parts travel as sender and recipient from the real qmail-remote across segmented simulated TCP to the real qmail-smtpd and qmail-queue, and the envelope in the receiving queue must equal the sending envelope byte for byte; (header leg) generated RFC 822 address lists go through the real qmail-inject and qmail-queue and the stored envelope is compared with the mailboxes the generator built in", gen_c17,
+    "plan i = f(VERIF_SEED, i): ALL local parts up to length 2 (quick) / 3 (thorough) over a 20-symbol alphabet (letters, dot, quote, backslash, space, TAB, CR, parentheses, angle brackets, @, comma, semicolon, colon, brackets, 8-bit, dash), then random ones up to 12 bytes, as sender or recipient, optionally with a second random recipient. Every third plan is the qmail-inject leg instead: a generated header (To/Cc/Bcc/Apparently-To; angle, comment, route, group, quoted, folded, host-less, short-host, plus-host and literal forms; -a/-h/-H/-f modes; QMAILDEFAULTHOST/DOMAIN/PLUSDOMAIN) whose mailboxes are known by construction goes through the real qmail-inject + qmail-queue; the stored envelope must be exactly those mailboxes after the documented rewriting, Bcc must be gone, and (no Bcc) re-injecting the rewritten message must give the same envelope. "
     "non-trivial = a connection was made",
     so_real(), so_stubs(), q_assume(), "hash of qmail-remote's output and the payload", 3000, 150000});
 
